@@ -243,6 +243,12 @@ class Raised(Exception):
         self.cls, self.exc = cls, exc
 
 
+class Unreadable(Exception):
+    """the readers of a value produced by an operator (variables, vartype, bounds, biases) raise: the object is inconsistent"""
+    def __init__(self, node, exc):
+        self.node, self.exc = node, exc
+
+
 def make_leaf(r, t, dtypes, keep):
     _, k, l, bias, lb, ub, dt = t
     dt = {None: None, 'float32': np.float32, 'float64': np.float64, 'object': object}[dt]
@@ -356,7 +362,10 @@ class Evaluator:
     def ev(self, t):
         try:
             o = self._ev(t)
-            self.res[id(t)] = ('ok', o, snap(o), coeffs(o))     # read now: a parent's in-place operator may mutate o
+            try:
+                self.res[id(t)] = ('ok', o, snap(o), coeffs(o))     # read now: a parent's in-place operator may mutate o
+            except Exception as e:       # noqa: BLE001 - whatever the readers raise
+                raise Unreadable(t, e)
             return o
         except Raised as e:
             self.res.setdefault(id(t), ('err', e.cls))
@@ -369,7 +378,10 @@ class Evaluator:
             out = f()
         except (TypeError, ValueError, ZeroDivisionError) as e:
             out = Raised(ERRS[type(e)], e)
-        after = [snap(x) for x in operands]
+        try:
+            after = [snap(x) for x in operands]
+        except Exception as e:       # noqa: BLE001
+            raise Unreadable(t, e)
         self.ctx.tick(path_name(t[0], operands, kinds, out, inplace_left))
         if isinstance(out, Raised) and not inplace_left and any(is_model(x) or is_view(x) for x in operands):
             self.ctx.tick('rejected non-in-place operator: operands compared before/after')
@@ -647,6 +659,40 @@ def check_node(ctx, t, ev, site_of):
     return True
 
 
+READ = ('def read(o):\n'
+        '    if hasattr(o, "variables"):\n'
+        '        [(o.get_linear(v), o.vartype(v) if callable(o.vartype) else o.vartype, o.lower_bound(v), o.upper_bound(v)) for v in o.variables]\n'
+        '        list(o.iter_quadratic()); o.offset\n')
+
+
+def report_unreadable(ctx, u):
+    """an operator left a model whose own readers raise (e.g. it lists a variable whose vartype/bias cannot be read): its
+    energy cannot even be computed from what it reports"""
+    node = u.node
+    kids = [c for c in node[1:] if isinstance(c, tuple)] if node[0] not in 'VCE' else []
+    names = [f'o{i}' for i in range(len(kids))]
+    op = node[0]
+    if not kids:
+        call = pyexpr(node)
+    elif op in ('ADD', 'SUB', 'MUL'):
+        call = f"o0 {dict(ADD='+', SUB='-', MUL='*')[op]} o1"
+    elif op in ('DIV', 'POW', 'IDIV'):
+        q = int(node[1]) if F(node[1]).denominator == 1 else float(node[1])
+        call = {'DIV': f'o0 / {q!r}', 'POW': f'o0 ** {q!r}', 'IDIV': f'idiv(o0, {q!r})'}[op]
+    elif op == 'NEG':
+        call = '-o0'
+    elif op in ('Q1', 'Q3'):
+        call = f"dimod.quicksum([{', '.join(names)}])"
+    else:
+        call = f"{op.lower()}({', '.join(names)})"
+    binds = ''.join(f'{n} = {pyexpr(c)}\n' for n, c in zip(names, kids))
+    ctx.fail('property', {'V': 'constructor', 'C': 'number', 'E': 'variable-free BQM'}.get(node[0], 'operator ' + node[0]), 'result unreadable',
+             f'after evaluating {node[0]} the readers of the result or of an operand raise {u.exc!r}',
+             repro=PRE + READ + binds + f'try:\n    r = {call}\nexcept (TypeError, ValueError, ZeroDivisionError):\n    r = None\n'
+                   f"try:\n    [read(o) for o in [r, {', '.join(names)}]]\nexcept Exception as e:\n    raise AssertionError(repr(e))\n",
+             detail=dict(tree=line_of(node)))
+
+
 def compare_two(ctx, r, ev, t, ty, lines, expect, meta):
     """`a <= b`, `a >= b`, `a == b` with the evaluated root on one side and a second small evaluated tree on the other (either
     order, every class on both sides), then the constraint a fresh CQM stores for the Comparison.  Predicate, from the
@@ -659,6 +705,9 @@ def compare_two(ctx, r, ev, t, ty, lines, expect, meta):
         ev.ev(t2)
     except (Raised, SkipTree):
         return 0
+    except Unreadable as u:
+        report_unreadable(ctx, u)
+        return 1
     a, b = (t, t2) if r.random() < .5 else (t2, t)
     oa, ob = (ev.res[id(n)][1] for n in (a, b))
     oa, ob = (float(o) if isinstance(o, np.floating) else o for o in (oa, ob))
@@ -817,6 +866,12 @@ def run(ctx):
             pass
         except SkipTree:
             ctx.tick('skipped: view of an object-dtype model')
+            continue
+        except Unreadable as u:
+            report_unreadable(ctx, u)
+            nprop += 1
+            if nprop >= 8:
+                break
             continue
 
         def site_of(node):
